@@ -8,13 +8,16 @@ import (
 	"fmt"
 	"github.com/google/uuid"
 	"math/rand"
+	"net"
 	"runtime"
 	"sync"
 	"sync/atomic"
 	"time"
 
+	"github.com/Tnze/go-mc/bot"
 	"github.com/Tnze/go-mc/chat"
 	"github.com/Tnze/go-mc/nbt"
+	mcnet "github.com/Tnze/go-mc/net"
 	pk "github.com/Tnze/go-mc/net/packet"
 	"github.com/Tnze/go-mc/net/queue"
 	"github.com/Tnze/go-mc/server"
@@ -444,4 +447,94 @@ func runStreams(env *vk.Env) {
 	}
 	env.Report("pooled codec stream delivered bytes that its own sender did not send (or an earlier result changed)",
 		fmt.Sprintf("Streams_Trace rejects line %d: %s", v.HWM, mustJSON(log.ev[v.HWM-1])), map[string]any{"kind": "streams"})
+}
+
+// ------------------------------------------------------------------ bot.Conn (warpConn)
+
+// botConnScenario: one peer writes packets 1..n into an in-memory socket and closes it; 1..5 consumers call
+// bot.Conn.ReadPacket concurrently (some already parked when the first packet arrives, some arriving after the close).
+func botConnScenario(seed int64, id int) []map[string]any {
+	rng := newRand(seed, fmt.Sprint("botconn", id))
+	n := rng.Intn(6)
+	nc := 1 + rng.Intn(5)
+	endA, endB := net.Pipe()
+	thr := []int{-1, 0, 64}[rng.Intn(3)]
+	peer := mcnet.WrapConn(endA)
+	peer.SetThreshold(thr)
+	mine := mcnet.WrapConn(endB)
+	mine.SetThreshold(thr)
+	log := &linLog{}
+	log.add(map[string]any{"k": "reset", "scn": id, "n": n, "consumers": nc})
+	conn := bot.VerifWarpConn(mine, queue.NewLinkedQueue[pk.Packet](), queue.NewLinkedQueue[pk.Packet]())
+	var all sync.WaitGroup
+	lateStart := make(chan struct{})
+	for c := 1; c <= nc; c++ {
+		g := c
+		late := rng.Intn(4) == 0
+		all.Add(1)
+		go func() {
+			defer all.Done()
+			if late {
+				<-lateStart
+			}
+			for {
+				var p pk.Packet
+				log.add(map[string]any{"k": "start", "g": g})
+				err := conn.ReadPacket(&p)
+				log.add(map[string]any{"k": "end", "g": g, "err": err != nil, "v": int(p.ID)})
+				if err != nil {
+					return
+				}
+				if p.ID <= 0 || int(p.ID) > n { // a nil error with a packet nobody sent: the trace is rejected at this line
+					return
+				}
+			}
+		}()
+	}
+	all.Add(1)
+	go func() {
+		defer all.Done()
+		r := rand.New(rand.NewSource(rng.Int63()))
+		for i := 1; i <= n; i++ {
+			if r.Intn(3) == 0 {
+				runtime.Gosched()
+			}
+			log.add(map[string]any{"k": "send", "v": i})
+			data := make([]byte, r.Intn(200))
+			if err := peer.WritePacket(pk.Packet{ID: int32(i), Data: data}); err != nil {
+				break
+			}
+		}
+		if r.Intn(2) == 0 {
+			time.Sleep(time.Duration(r.Intn(300)) * time.Microsecond) // consumers park on the empty queue first
+		}
+		log.add(map[string]any{"k": "close"})
+		peer.Close()
+		close(lateStart)
+	}()
+	done := make(chan struct{})
+	go func() { all.Wait(); close(done) }()
+	select {
+	case <-done:
+		log.add(map[string]any{"k": "quiesce"})
+	case <-time.After(4 * time.Second):
+		log.add(map[string]any{"k": "hang"}) // a consumer was never answered: no action of the specification matches
+	}
+	conn.Close()
+	log.mu.Lock()
+	defer log.mu.Unlock()
+	return append([]map[string]any{}, log.ev...)
+}
+
+func runBotConn(env *vk.Env) {
+	if env.MustSpec(vk.TLCRun{Name: "S BotConn", Module: "BotConn", Cfg: "BotConn_MC.cfg", Workers: 4}) == nil {
+		return
+	}
+	n := env.Pick(150, 3000)
+	var scen [][]map[string]any
+	for i := 0; i < n; i++ {
+		scen = append(scen, botConnScenario(env.Seed, i))
+	}
+	judgeLin(env, "BotConn_Trace", "BotConn_Trace.cfg", "B bot.Conn ReadPacket histories (peer writes, then closes)", "bot.Conn", scen, "lin")
+	env.Distinct("botconn")
 }
